@@ -109,7 +109,7 @@ Theorem C04_run_confined_refuted :
     secure fl /\ Inv [n_target] Oc st /\ Forall hl_ok es /\ Forall (short fl) es /\
     prune [n_target] (root (st_fs (snd (run_history fl st es)))) <> prune [n_target] (root (st_fs st)).
 Proof.
-  intros Hflag. try (vm_compute in Hflag; discriminate Hflag).   (* vacuous once the source has the fix *)
+  intros Hflag.
   exists (SECF + (EXTRACT_PERM + EXTRACT_TIME)), (st_world 18 []), f1_history.
   split; [unfold secure; repeat split; reflexivity|]. split; [apply world_inv|].
   split; [repeat (apply Forall_cons; [intros H; first [reflexivity | vm_compute in H; discriminate H]|]); apply Forall_nil|].
@@ -165,11 +165,11 @@ Theorem C04_step_confined_refuted :
     secure fl /\ Inv [n_target] Oc st /\ short fl e /\
     prune [n_target] (root (st_fs (snd (restore fl st e)))) <> prune [n_target] (root (st_fs st)).
 Proof.
-  intros Hflag. try (vm_compute in Hflag; discriminate Hflag).   (* vacuous once the source has the fix *)
-  exists (SECF + EXTRACT_PERM), (st_world 18 f2_pre), f2_entry.
-  split; [unfold secure; repeat split; reflexivity|]. split; [apply world2_inv|]. split.
-  - intros q H. vm_compute in H. injection H as <-. apply Nat.ltb_lt. vm_compute. reflexivity.
-  - intros H. apply (f_equal (get [n_outside; n_cfile])) in H. vm_compute in H. discriminate.
+  intros Hflag. assert (X := Hflag). vm_compute in X. try discriminate X.   (* vacuous once the source has the fix *)
+  all: exists (SECF + EXTRACT_PERM), (st_world 18 f2_pre), f2_entry.
+  all: split; [unfold secure; repeat split; reflexivity|]; split; [apply world2_inv|]; split;
+    [ intros q H; vm_compute in H; injection H as <-; apply Nat.ltb_lt; vm_compute; reflexivity
+    | intros H; apply (f_equal (get [n_outside; n_cfile])) in H; vm_compute in H; discriminate ].
 Qed.
 Print Assumptions C04_step_confined_refuted.
 
